@@ -712,6 +712,27 @@ def rule_D5(repo: Repo) -> RuleResult:
     else:
         res.bad(r1, rec[0].node, f"combine stage skipna={sk!r} n_threads={nt!r}",
                 "the combine stage must forward skipna and run single-threaded")
+    # every multi-thread return goes through the null-skipping combine stage
+    from .paths import enumerate_paths
+    n_mt = 0
+    for p in enumerate_paths(r1.node.body):
+        if p.exit != "return":
+            continue
+        mt = any(pol is False and isinstance(t, ast.AST) and norm(t) == "n_threads == 1" for t, pol in p.conds)
+        if not mt:
+            continue
+        n_mt += 1
+        combine = [st for st in p.stmts for c in ast.walk(st) if isinstance(c, ast.Call) and norm(c.func) == "reduce_1d"]
+        if not combine:
+            res.bad(r1, p.exit_node, f"multi-thread path {p.describe()[:90]}",
+                    "the per-thread chunk results are not combined by the null-skipping reducer stage "
+                    "(reduce_1d(chunk_reduction, chunks, skipna=skipna, n_threads=1)): an all-null chunk (NaN result) is "
+                    "combined as a value, so the answer depends on where the nulls fall relative to the thread split",
+                    path=p.describe())
+    if n_mt < 1:
+        raise AnalysisError("D5: no multi-thread return path found in reduce_1d")
+    seen_k = set()
+    res.violations = [v for v in res.violations if not (v.key() in seen_k or seen_k.add(v.key()))]
     # public names
     for fname, rname in [("nansum", "sum"), ("nanmax", "max"), ("nanmin", "min"), ("count", "count")]:
         f = nan.func(fname)
@@ -845,4 +866,69 @@ def rule_D8(repo: Repo) -> RuleResult:
                 res.ok(g, n, norm(n.test) + " -> raise", "out-of-range positions are rejected when the check is enabled")
     if not has:
         res.bad(g, g.node, "bounds check", "_group_by_reduce no longer raises on an out-of-range position")
+    return res
+
+
+# ------------------------------------------------------------------------------- D9 mask order
+
+ORDER_PRESERVING = ("nonzero", "_val_to_numpy", "np.asarray", "asarray", "astype", "copy", "view", "to_numpy")
+REORDERING = ("np.sort", "sort", "sorted", "np.unique", "unique", "argsort", "np.argsort", "set", "np.flip", "reversed",
+              "np.random.permutation", "np.roll")
+
+
+def rule_D9(repo: Repo) -> RuleResult:
+    """positions given as a mask are used in the order given, in contiguous blocks"""
+    res = RuleResult("D9", "a positional mask reaches the kernels in the order given, split into contiguous blocks")
+    nb = repo.mod(NB)
+    n = 0
+    for fname in ("_chunk_groupby_args", "_group_func_wrap", "_apply_group_method_single_chunk"):
+        f = nb.func(fname)
+        for st in walk_no_nested(f.node):
+            if not isinstance(st, ast.Assign):
+                continue
+            tn = [t.id for t in st.targets if isinstance(t, ast.Name)]
+            if not (set(tn) & {"mask", "indexer"}):
+                continue
+            v = st.value
+            if isinstance(v, ast.Constant) and v.value is None:
+                continue
+            if isinstance(v, ast.Name) and v.id in ("mask", "indexer"):
+                n += 1
+                res.ok(f, st, norm(st), "same object")
+                continue
+            if "mask" not in {x.id for x in ast.walk(v) if isinstance(x, ast.Name)}:
+                continue
+            n += 1
+            calls = [norm(c.func).split(".")[-1] if not norm(c.func).startswith("np.") else norm(c.func)
+                     for c in ast.walk(v) if isinstance(c, ast.Call)]
+            strided = any(isinstance(x, ast.Slice) and x.step is not None for x in ast.walk(v))
+            bad = [c for c in calls if c in REORDERING or c.split(".")[-1] in REORDERING]
+            unknown = [c for c in calls if c not in ORDER_PRESERVING and c.split(".")[-1] not in ORDER_PRESERVING and c not in bad]
+            if bad or strided:
+                res.bad(f, st, norm(st),
+                        f"the positions of the mask are re-ordered ({', '.join(bad) or 'strided slice'}) before use: rows are "
+                        f"no longer taken the way array indexing would, so first/last follow a different row order")
+            elif unknown:
+                raise AnalysisError(f"D9: unrecognised transformation of the mask in {fname}: {norm(st)}")
+            else:
+                res.ok(f, st, norm(st), "order-preserving conversion")
+    # blocks: the only splitter of positions is np.array_split(mask, n_chunks), iterated in order
+    f = nb.func("_chunk_groupby_args")
+    found = False
+    for node in walk_no_nested(f.node):
+        if isinstance(node, ast.GeneratorExp) or isinstance(node, ast.ListComp):
+            if "mask=chunk" in norm(node) or "mask=" in norm(node.elt):
+                found = True
+                it = node.generators[0].iter
+                n += 1
+                if isinstance(it, ast.Call) and norm(it.func) == "np.array_split" and it.args and norm(it.args[0]) == "mask":
+                    res.ok(f, node, norm(node)[:90], "contiguous blocks of the positions, in order")
+                else:
+                    res.bad(f, node, norm(node)[:90],
+                            "the selected positions are not dealt to the workers as consecutive blocks in order "
+                            "(np.array_split(mask, n_chunks)): the in-order merge of first/last assumes block j precedes block j+1")
+    if not found:
+        raise AnalysisError("D9: block construction for masked rows not found in _chunk_groupby_args")
+    if n < 4:
+        raise AnalysisError(f"D9: only {n} mask conversions examined (floor 4)")
     return res
